@@ -129,6 +129,147 @@ fn make_noise(rng: &mut StdRng, cat: &str, base: &Msg, ex: &Exec, port: usize) -
     Some((m.encode(), event))
 }
 
+const SCRIPTED_CATEGORIES: [&str; 3] = ["sync-former-parent-port", "followup-former-parent-port", "delayresp-former-parent-port"];
+
+/// A scripted history the random driver does not produce: the selected parent moves from one port
+/// of a master clock to another port of the *same* clock (boundary clock reachable through two of
+/// its ports), then Sync / Follow_Up / Delay_Resp still arrive from the port that is no longer the
+/// parent. Returns a replayable case (base ops + planned noise) for `run_case`.
+fn parent_port_switch_case(seed: u64) -> Option<Case> {
+    let mut rng = StdRng::seed_from_u64(seed);
+    let mut cfg = gen_config(&mut rng);
+    cfg.ports.truncate(1);
+    {
+        let p = &mut cfg.ports[0];
+        p.p2p = false;
+        p.master_only = false;
+        p.aml = 0;
+        p.minor_zero = false;
+        p.receipt_timeout = 10;
+        p.asymmetry = 0;
+    }
+    cfg.slave_only = rng.gen_bool(0.2);
+    cfg.class = if cfg.slave_only { 255 } else { 248 };
+    cfg.p1 = 128;
+    cfg.domain = 0;
+    cfg.sdo = 0;
+    cfg.tlv = 0;
+    cfg.filter = [1u8, 2][rng.gen_range(0..2)];
+    cfg.clock_fail_every = 0;
+    cfg.start = 1_700_000_000 * SEC;
+    let mut ex = Exec::new(&cfg).ok()?;
+    let mut ops: Vec<Op> = vec![];
+    let mut noise: Vec<(usize, Op, String)> = vec![];
+    let x = clock_id(0x33).0;
+    let (hi, lo) = if rng.gen_bool(0.5) { (2u16, 1u16) } else { (rng.gen_range(2..60000), 1) };
+    let old = Src::new(x, hi);
+    let newp = Src::new(x, lo);
+    let mut body = AnnounceBody::default();
+    body.gm_identity = clock_id(0x34).0;
+    body.gm_priority1 = 50;
+    body.steps_removed = 1;
+    let flags = [0u8, 0b0000_1000];
+    let (oc, op_) = ex.node.port_identity_bytes(0);
+    let own = Pid { clock: oc, port: op_ };
+    let mut seq_a = rng.gen::<u16>();
+    let mut seq_s = rng.gen::<u16>();
+    macro_rules! push {
+        ($op:expr) => {{
+            let o: Op = $op;
+            ex.apply(&o).ok()?;
+            ops.push(o);
+        }};
+    }
+    let now = |ex: &Exec| ex.node.clock.lock().unwrap().read();
+    let ts = |u: u128| Ts { secs: ((u >> 32) / 1_000_000_000) as u64, nanos: ((u >> 32) % 1_000_000_000) as u32 };
+    // 1. slave of X:hi
+    for _ in 0..rng.gen_range(2..4) {
+        let mut m = old.announce(seq_a, body.clone());
+        m.hdr.flags = flags;
+        seq_a = seq_a.wrapping_add(1);
+        push!(Op::General { port: 0, data: hex(&m.encode()) });
+        push!(Op::Advance(500_000_000));
+    }
+    push!(Op::Bmca);
+    if ex.node.port_state(0) != PortState::Slave {
+        return None;
+    }
+    // 2. one sync and one delay exchange with X:hi so that a mean delay is known
+    let sync_from = |src: &Src, seq: u16, ex: &Exec, rng: &mut StdRng, two_step: bool| -> (Op, Option<Op>) {
+        let t2 = now(ex);
+        let t1 = t2 - (rng.gen_range(50_000..900_000u128) << 32);
+        if two_step {
+            (Op::Event { port: 0, data: hex(&src.sync(seq, true, Ts::default(), 0).encode()), t: t2 }, Some(Op::General { port: 0, data: hex(&src.follow_up(seq, ts(t1), 0).encode()) }))
+        } else {
+            (Op::Event { port: 0, data: hex(&src.sync(seq, false, ts(t1), 0).encode()), t: t2 }, None)
+        }
+    };
+    let two_step = rng.gen_bool(0.5);
+    let (s, f) = sync_from(&old, seq_s, &ex, &mut rng, two_step);
+    seq_s = seq_s.wrapping_add(1);
+    push!(s);
+    if let Some(f) = f {
+        push!(f);
+    }
+    push!(Op::Timer { port: 0, kind: 2 });
+    let dreq = ex.last_tx.iter().find_map(|(_, d, _)| Msg::decode(d).ok().filter(|m| m.hdr.msg_type == T_DELAY_REQ))?;
+    let t3 = now(&ex);
+    push!(Op::TxTs { port: 0, which: 0, t: t3 });
+    let t4 = t3 + (rng.gen_range(50_000..900_000u128) << 32);
+    push!(Op::General { port: 0, data: hex(&old.delay_resp(dreq.hdr.seq, ts(t4), own, 0).encode()) });
+    push!(Op::Advance(300_000_000));
+    // 3. X:lo starts announcing the same grandmaster and wins the tie-break (lower port number)
+    for _ in 0..rng.gen_range(2..4) {
+        let mut m = newp.announce(seq_a, body.clone());
+        m.hdr.flags = flags;
+        seq_a = seq_a.wrapping_add(1);
+        push!(Op::General { port: 0, data: hex(&m.encode()) });
+        push!(Op::Advance(400_000_000));
+    }
+    push!(Op::Bmca);
+    let pd = ex.node.inst().parent_ds();
+    if ex.node.port_state(0) != PortState::Slave || pd.parent_port_identity.port_number != lo || pd.parent_port_identity.clock_identity.0 != x {
+        return None;
+    }
+    // 4. traffic of the new parent continues; frames of the former parent port are the noise
+    for k in 0..rng.gen_range(2..5) {
+        push!(Op::Advance(250_000_000));
+        // noise before this round
+        let which = rng.gen_range(0..3);
+        match which {
+            0 => {
+                let (s, _) = sync_from(&old, seq_s.wrapping_add(100 + k), &ex, &mut rng, false);
+                noise.push((ops.len(), s, SCRIPTED_CATEGORIES[0].into()));
+            }
+            1 => {
+                let (s, f) = sync_from(&old, seq_s.wrapping_add(200 + k), &ex, &mut rng, true);
+                noise.push((ops.len(), s, SCRIPTED_CATEGORIES[0].into()));
+                noise.push((ops.len(), f.unwrap(), SCRIPTED_CATEGORIES[1].into()));
+            }
+            _ => {
+                // a delay request is outstanding: the former parent port answers it
+                push!(Op::Timer { port: 0, kind: 2 });
+                if let Some(dreq) = ex.last_tx.iter().find_map(|(_, d, _)| Msg::decode(d).ok().filter(|m| m.hdr.msg_type == T_DELAY_REQ)) {
+                    let t3 = now(&ex);
+                    push!(Op::TxTs { port: 0, which: 0, t: t3 });
+                    let t4 = t3 + (rng.gen_range(50_000..900_000u128) << 32);
+                    noise.push((ops.len(), Op::General { port: 0, data: hex(&old.delay_resp(dreq.hdr.seq, ts(t4), own, 0).encode()) }, SCRIPTED_CATEGORIES[2].into()));
+                }
+            }
+        }
+        let ts2 = rng.gen_bool(0.5);
+        let (s, f) = sync_from(&newp, seq_s, &ex, &mut rng, ts2);
+        seq_s = seq_s.wrapping_add(1);
+        push!(s);
+        if let Some(f) = f {
+            push!(f);
+        }
+        push!(Op::Timer { port: 0, kind: 4 });
+    }
+    push!(Op::Bmca);
+    Some(Case { cfg, gen_seed: seed, noise_seed: seed, n_ops: ops.len(), base_ops: ops, noise })
+}
+
 pub fn run_case(rep: &mut Report, case: &Case) {
     // ---------------- run A: generate + record
     let Ok(mut a) = Exec::new(&case.cfg) else { return };
@@ -272,7 +413,7 @@ pub fn run_case(rep: &mut Report, case: &Case) {
 pub fn run(rep: &mut Report, tier: &str, seed: u64, shard: (u32, u32), replay: Option<&str>) {
     rep.rule = "pairs of lock-step runs of one concrete host history (from the stateful hostile driver, consistent timestamps, ~200 calls): the second run additionally receives noise frames, each derived from a valid frame of the same history by exactly one disqualifying edit (12 categories) and inserted right before / some calls after the frame it was derived from; distinct = (noise category x port state) cells hit; evaluations = history pairs".into();
     rep.require(&["noise_inserted", "base_call_compared"]);
-    for c in CATEGORIES {
+    for c in CATEGORIES.iter().chain(SCRIPTED_CATEGORIES.iter()) {
         rep.required_events.push(format!("noise_{c}"));
     }
     if let Some(path) = replay {
@@ -307,5 +448,15 @@ pub fn run(rep: &mut Report, tier: &str, seed: u64, shard: (u32, u32), replay: O
         }
         run_case(rep, &case);
         rep.evaluations += 1;
+        if i % 10 == 0 {
+            match parent_port_switch_case(rng.gen()) {
+                Some(c) => {
+                    rep.ev("parent_port_switch_history");
+                    run_case(rep, &c);
+                    rep.evaluations += 1;
+                }
+                None => rep.ev("parent_port_switch_history_not_reached"),
+            }
+        }
     }
 }
